@@ -336,6 +336,48 @@ func checkC06(c *Ctx) {
 			}
 		}
 	}
+	// step lists that only differ in where a digit stands: names ending in digits next to multipliers
+	// ("d_1 * 61" / "d_16" / "d_161"), runs split differently ("d_1 * 6, d_1" is "d_1 * 7"), and texts
+	// whose concatenation with a neighbour coincides; each script holds a dozen of them
+	{
+		names := []string{"d_1", "d_16", "d_161", "d_1_6", "d_"}
+		muls := []string{"", "1", "6", "16", "61", "161", "0x10"}
+		var bodies [][]ListItem
+		for _, n := range names {
+			for _, m := range muls {
+				bodies = append(bodies, []ListItem{{Name: n, Mul: m}})
+			}
+		}
+		bodies = append(bodies, []ListItem{{Name: "d_1", Mul: "6"}, {Name: "d_1"}}, []ListItem{{Name: "d_1"}, {Name: "d_1", Mul: "6"}},
+			[]ListItem{{Name: "d_1", Mul: "7"}}, []ListItem{{Name: "d_1", Mul: "6"}, {Name: "d_16"}}, []ListItem{{Name: "d_16"}, {Name: "d_1", Mul: "6"}},
+			[]ListItem{{Name: "d_1"}, {Name: "d_16", Mul: "2"}}, []ListItem{{Name: "d_1", Mul: "16"}, {Name: "d_2"}}, []ListItem{{Name: "d_1", Mul: "1"}, {Name: "d_62"}})
+		for rot := 0; rot < 2; rot++ {
+			f := &File{}
+			for sI := 0; sI*12 < len(bodies); sI++ {
+				var body []Stmt
+				for k := sI * 12; k < len(bodies) && k < sI*12+12; k++ {
+					b := bodies[(k+rot*17)%len(bodies)]
+					body = append(body, Stmt{K: "cmd", Toks: []string{fmt.Sprintf("mv%d", k), "1", ",", "@inl0"}, Inl: []Inline{{Kind: "moves", Steps: b}}})
+				}
+				f.Tops = append(f.Tops, Top{K: "script", Name: fmt.Sprintf("Digits%d", sI), Body: body})
+			}
+			src, _ := RenderFile(f, Style{R: r, Layout: 1})
+			o := Opts{Optimize: rot == 0}
+			res := Compile(src, o)
+			if res.Panic != "" || res.TimedOut || res.Err != nil {
+				c.Violate(Violation{What: "compiler failed on a well-formed file: " + fmt.Sprint(res.Err) + res.Panic, Source: src, Opts: &o})
+				continue
+			}
+			id := fmt.Sprintf("digits.%d", rot)
+			e, err := hoistEvents(id, f, res)
+			if err != nil {
+				c.Fatal("building events: %v", err)
+				return
+			}
+			evs = append(evs, e...)
+			files[id] = rec{src, o, res.Out + fmt.Sprint(res.Err), e}
+		}
+	}
 	// two-digit label numbers: scripts with 25 inline texts and 13 inline movements each, some repeated
 	{
 		f := &File{}
